@@ -4,7 +4,7 @@ from typing import Optional
 from ..core import Report
 from ..fjfront import Stl
 from ..pyfacts import Repo
-from ..stlrules import rule_bitorder, rule_closure, rule_extent, rule_alias, rule_scratch, rule_const_fits, rule_jumpword_restore, rule_byte_class
+from ..stlrules import rule_bitorder, rule_closure, rule_extent, rule_alias, rule_scratch, rule_const_fits, rule_carry_top, rule_jumpword_restore, rule_byte_class
 
 FILES = ['flipjump/stl/hex/input.fj', 'flipjump/stl/hex/output.fj', 'flipjump/stl/bit/input.fj', 'flipjump/stl/bit/output.fj',
          'flipjump/stl/bit/casting.fj', 'flipjump/stl/casting.fj', 'flipjump/stl/hex/strings.fj', 'flipjump/stl/runlib.fj']
@@ -20,6 +20,7 @@ def check(rep: Report, repo: Optional[Repo] = None) -> None:
     rule_scratch(rep, stl, 'C09', FILES, 80)
     rule_alias(rep, stl, 'C09', FILES, 8)
     rule_const_fits(rep, stl, 'C09', FILES, 13)
+    rule_carry_top(rep, stl, 'C09', FILES, 10)
     rule_jumpword_restore(rep, stl, 'C09', FILES, 3)
     rule_byte_class(rep, stl, 'C09', FILES, 8)
     rep.assumptions.append('footprints assume generic position: distinct symbolic operands of a compile-time `==` / `!=` aliasing test denote distinct variables')
@@ -27,7 +28,7 @@ def check(rep: Report, repo: Optional[Repo] = None) -> None:
 
 
 MANIFEST = dict(
-    technique='own .fj front end: link closure, extents, index-order of the rep-based IO macros; scratch (path-sensitive) / alias / jump-word typestate / constant-width rules; finite-domain abstract interpretation of the input parsers (byte classes vs the documented character classes)',
+    technique='own .fj front end: link closure, extents, index-order of the rep-based IO macros; scratch (path-sensitive) / alias / jump-word typestate / constant-width rules; finite-domain abstract interpretation of the input parsers (byte classes vs the documented character classes); in-place arithmetic reaches the top of the assigned extent (CARRY-TOP)',
     level_text='Also: scratch initialisation, alias hazards, jump-word give-back on every path (typestate over the macro CFG), constant widths. Static, PARTIAL: closure and extents as for C04; the raw IO macros documented lsb-first walk bits/bytes in ascending order '
                '(the order C17 pins for the devices). The input parsers are interpreted abstractly over the 256 byte values: the bytes each one accepts, stops at or rejects are unions of the character classes its doc names. It does NOT decide the numeric conversions themselves. One documentation/behaviour mismatch '
                '(bit.input n) is a recorded finding.',
